@@ -37,7 +37,7 @@ def apply(root, edits):
         open(path, "w").write(s)
     return None
 
-def case(c, is_mutant, skip_tests=False):
+def case(c, is_mutant, skip_tests=False, skip_build=False):
     tmp = tempfile.mkdtemp(prefix="fpmut_", dir=os.environ.get("TMPDIR", "/tmp"))
     try:
         tree = os.path.join(tmp, "repo")
@@ -45,9 +45,10 @@ def case(c, is_mutant, skip_tests=False):
         err = apply(tree, c.get("edits", []))
         if err:
             return c["id"], "BROKEN-CASE", err
-        rc, out = run(["go", "build", "./..."], tree, GOENV)
-        if rc != 0:
-            return c["id"], "BROKEN-CASE", "does not build: " + out[-400:]
+        if not skip_build:
+            rc, out = run(["go", "build", "./..."], tree, GOENV)
+            if rc != 0:
+                return c["id"], "BROKEN-CASE", "does not build: " + out[-400:]
         if not skip_tests:
             rc, out = run(["go", "test", "-vet=off", "-count=1", "./..."], tree, GOENV)
             if rc != 0:
@@ -77,7 +78,22 @@ def case(c, is_mutant, skip_tests=False):
     finally:
         shutil.rmtree(tmp, ignore_errors=True)
 
+def canary(prop, jsonout):
+    """Thorough tier: every rule of `prop` must fire on its canaries (mutants of the corpus that break prop).
+    Applied to the current tree without building or running tests; a canary whose pattern no longer applies
+    (the tree was edited) is skipped, not failed."""
+    cases = [m for m in corpus.MUTANTS if prop in m["caught_by"]]
+    out = []
+    with ThreadPoolExecutor(max_workers=8) as ex:
+        results = list(ex.map(lambda c: case(dict(c, caught_by=[prop], mention=None), True, skip_tests=True, skip_build=True), cases))
+    for cid, status, detail in results:
+        out.append(dict(id=cid, status=status, detail=detail[:200]))
+    json.dump(out, open(jsonout, "w"), indent=1)
+    return 0
+
 def main():
+    if len(sys.argv) >= 4 and sys.argv[1] == "--canary":
+        return canary(sys.argv[2], sys.argv[3])
     only = sys.argv[1:]
     cases = [(m, True) for m in corpus.MUTANTS] + [(r, False) for r in corpus.REFACTORS] + [(dict(id="r00_unchanged_tree", edits=[]), False)]
     if only:
